@@ -234,7 +234,7 @@ func c11(r *Run) {
 	}
 	probeBad := cmpAtom(isRecvmsg, isEAGAIN, neqRel)
 	kinds := map[string]int{}
-	var j2 []ssa.Instruction
+	var j2, probeSites []ssa.Instruction
 	for i, site := range hupSites {
 		reason := ""
 		switch {
@@ -247,6 +247,7 @@ func c11(r *Run) {
 			j2 = append(j2, site)
 		case r.guardedQuiet(disp, site, probeBad):
 			reason = "error-queue-probe"
+			probeSites = append(probeSites, site)
 		}
 		kinds[reason]++
 		r.ob(fmt.Sprintf("C11.R3:hup-verdict-has-reason#%d", i+1), "a hang-up is declared only for a reason: the read or send failed, the peer hung up and nothing was read in this iteration (totalRead==0), or the error-queue probe did not say EAGAIN", disp, site, reason != "", "reason: "+reason, true)
@@ -332,6 +333,29 @@ func c11(r *Run) {
 			wit := ss.Find(held, isIns(site), false)
 			r.Visited += ss.Visited
 			r.obW(fmt.Sprintf("C11.R3:drain-before-hup#%d", i+1), "for a connection slot with a readable event, the hang-up decision is reached only after readall drained the socket (bytes sent before the FIN are delivered before OnHup)", disp, site, wit, "readall() on every path (readable, Inputs set)")
+		}
+		// the error-queue verdict, too: when the same event carries a hang-up flag and a readable flag, it is reached only after
+		// readall drained the socket (a unix socket answers the probe with something other than EAGAIN: judging before the drain
+		// reports the hang-up with bytes unread)
+		if len(readalls) > 0 {
+			hupConds := map[ssa.Value]bool{}
+			for _, g := range guardChain(readalls[0].Block()) {
+				if g.Branch {
+					hupConds[g.Cond] = true
+				}
+			}
+			assumeHup := func(v ssa.Value) (bool, bool) {
+				if hupConds[v] {
+					return true, true
+				}
+				return assume(v)
+			}
+			for i, site := range probeSites {
+				ss := &Search{Fn: disp, Stop: func(x ssa.Instruction) bool { return isCall(x, readall) }, Assume: assumeHup}
+				wit := ss.Find(held, isIns(site), false)
+				r.Visited += ss.Visited
+				r.obW(fmt.Sprintf("C11.R3:drain-before-error-verdict#%d", i+1), "when an event carries the hang-up and the readable flag, the error-queue verdict (which also hangs the connection up) is reached only after readall drained the socket: bytes the peer sent before it went away are delivered before OnHup", disp, site, wit, "readall() on every path (hang-up flag, readable, Inputs set)")
+			}
 		}
 		// readall's count feeds the decision
 		for _, ra := range readalls {
@@ -482,6 +506,34 @@ func c11(r *Run) {
 				}
 				r.Visited += s1.Visited
 				r.obW("C11.R6:batch-dispatched-from-the-array-that-was-filled", "between EpollWait filling the event array and the Handler dispatch of that batch the array is not replaced (the grow-on-full Reset belongs before the next wait): a batch dispatched from a fresh array is lost, and edge-triggered events are not reported again", waitFn, nil, wit, "no Reset / events store between an EpollWait and the dispatch of its batch")
+			}
+			// decoding the event word: the hang-up test covers both EPOLLHUP and EPOLLRDHUP (a hang-up the kernel reports as HUP
+			// alone - an unconnected socket, a pipe whose writer went away - must still be detached), the others their own bit
+			{
+				masks := map[int64]bool{}
+				forEachIns(disp, func(i ssa.Instruction) {
+					b, ok := i.(*ssa.BinOp)
+					if !ok || b.Op != token.AND {
+						return
+					}
+					for _, v := range []ssa.Value{b.X, b.Y} {
+						if k, okc := constInt(v); okc {
+							masks[k] = true
+						}
+					}
+				})
+				hup, okh := w.PkgConst("syscall", "EPOLLHUP")
+				rdhup, okr := w.PkgConst("syscall", "EPOLLRDHUP")
+				epin, _ := w.PkgConst("syscall", "EPOLLIN")
+				epout, _ := w.PkgConst("syscall", "EPOLLOUT")
+				eperr, _ := w.PkgConst("syscall", "EPOLLERR")
+				if !okh || !okr {
+					broken("ANCHOR-LOST syscall.EPOLLHUP/EPOLLRDHUP")
+				}
+				r.ob("C11.R6:event-decoding:hang-up", "the dispatch function's hang-up test looks at EPOLLHUP and EPOLLRDHUP together", disp, nil, masks[hup|rdhup], fmt.Sprintf("masks used: %v", sortedKeys(masks)), false)
+				r.ob("C11.R6:event-decoding:readable", "the readable test looks at EPOLLIN", disp, nil, masks[epin], "evt & EPOLLIN", false)
+				r.ob("C11.R6:event-decoding:writable", "the writable test looks at EPOLLOUT", disp, nil, masks[epout], "evt & EPOLLOUT", false)
+				r.ob("C11.R6:event-decoding:error", "the error test looks at EPOLLERR", disp, nil, masks[eperr], "evt & EPOLLERR", false)
 			}
 			// the interest masks: whatever else a connection waits for, readable and hang-up stay armed
 			ctl := w.MustFn("(*defaultPoll).Control")
